@@ -773,7 +773,7 @@ class Lowerer:
             self.protos[cname] = self.prototype(self.byid[first], cname)
             self.record_info(cname, self.byid[first])
 
-    def output(self):
+    def output(self, types_only=False):
         self.lower_all()
         body = []
         for cname, text in self.emitted.items():
@@ -788,8 +788,248 @@ class Lowerer:
         for cname, p in self.protos.items():
             parts.append(p + ';')
         parts.append('')
-        parts.extend(body)
+        if not types_only:
+            parts.extend(body)
         return '\n'.join(parts) + '\n'
+
+    def reset_emission(self):
+        self.needed_funcs = {}
+        self.queue = []
+        self.extern_funcs = {}
+        self.emitted = {}
+        self.protos = {}
+        self.used_records = []
+        self.const_macros = {}
+        self.const_order = []
+        self.loop_contracts = {}
+        self.loop_contracts_used = set()
+        self.stub_names = set()
+        self.func_info = {}
+        self.libc_used = set()
+
+    # ------------------------------------------------------------------ native shim (C++ side of covalidate / replay)
+    def cpp_targs(self, n):
+        out = []
+
+        def one(c):
+            if 'type' in c:
+                return [strip_sfinae(c['type']['qualType'])]
+            if 'value' in c:
+                v = c['value']
+                if isinstance(v, bool):
+                    return ['true' if v else 'false']
+                return [str(v)]
+            r = []
+            for x in c.get('inner', ()):
+                if isinstance(x, dict) and x.get('kind') == 'TemplateArgument':
+                    r.extend(one(x))
+            return r
+        for c in n.get('inner', ()):
+            if isinstance(c, dict) and c.get('kind') == 'TemplateArgument':
+                out.extend(one(c))
+        return out
+
+    def cpp_scope(self, n):
+        """C++ spelling of the scope (namespace / class chain) that declares n, ending with '::' (or '')"""
+        pid = n.get('parentDeclContextId')
+        par = self.byid.get(pid) if pid else self.parent.get(n.get('id'))
+        parts = []
+        guard = 0
+        while par is not None and guard < 64:
+            guard += 1
+            pk = par.get('kind')
+            if pk == 'NamespaceDecl':
+                if par.get('name') and not par.get('isInline'):
+                    parts.insert(0, par['name'])
+            elif pk in RECORD_KINDS:
+                nm = par.get('name')
+                if not nm:
+                    raise LowerError('anonymous record in C++ scope')
+                if pk == 'ClassTemplateSpecializationDecl':
+                    nm += '<' + ', '.join(self.cpp_targs(par)) + ' >'
+                parts.insert(0, nm)
+            elif pk in FUNC_KINDS:
+                raise LowerError('function-local entity has no C++ qualified name')
+            ppid = par.get('parentDeclContextId')
+            par = self.byid.get(ppid) if ppid else self.parent.get(par.get('id'))
+        return ''.join(p + '::' for p in parts)
+
+    def cpp_type_of(self, tnode):
+        s = tnode.get('desugaredQualType') or tnode.get('qualType')
+        return strip_sfinae(s)
+
+    def shim_wrapper(self, cname, first):
+        n = self.byid[first]
+        d = self.body_of.get(first, n)
+        k = n.get('kind')
+        ft = self.fn_types(n)
+        pdecls = self.func_sig_params(d)
+        if len(pdecls) != len(ft[2]):
+            raise LowerError('parameter list mismatch')
+        static = self.is_static_method(n)
+        cparams = []
+        args = []
+        if not static:
+            cparams.append('void* self')
+        for i, (p, pt) in enumerate(zip(pdecls, ft[2])):
+            cpp = self.cpp_type_of(p['type'])
+            nm = 'a%d' % i
+            if pt[0] in ('ref', 'rref'):
+                base = re.sub(r'\s*&&?\s*$', '', cpp)
+                if pt[1][0] == 'arr':
+                    raise LowerError('reference to array parameter')
+                cparams.append('void* ' + nm)
+                if pt[0] == 'ref':
+                    args.append('*reinterpret_cast<%s*>(%s)' % (base, nm))
+                else:
+                    args.append('static_cast<%s&&>(*reinterpret_cast<%s*>(%s))' % (base, base, nm))
+            elif pt[0] == 'ptr':
+                if pt[1][0] == 'func':
+                    raise LowerError('function pointer parameter')
+                cparams.append('void* ' + nm)
+                args.append('(%s)(%s)' % (cpp, nm))
+            elif pt[0] == 'enum':
+                cparams.append('%s %s' % (self.enum_ctype(pt[1]).replace('_Bool', 'bool'), nm))
+                args.append('static_cast<%s>(%s)' % (cpp, nm))
+            elif pt[0] == 'builtin':
+                cparams.append('%s %s' % (pt[1].replace('_Bool', 'bool'), nm))
+                args.append(nm)
+            elif pt[0] == 'rec':
+                dd = self.records[pt[1]].get('definitionData', {})
+                if not (dd.get('isTriviallyCopyable') or dd.get('canPassInRegisters')):
+                    raise LowerError('non-trivially-copyable by-value parameter')
+                cparams.append('%s %s' % (cpp, nm))
+                args.append(nm)
+            else:
+                raise LowerError('parameter type %r' % (pt,))
+        targs = ''
+        if self.is_func_template_inst(n):
+            ta = self.cpp_targs(n)
+            if ta:
+                targs = '<' + ', '.join(ta) + ' >'
+        name = n.get('name')
+        scope = self.cpp_scope(n)
+        rt = ft[1]
+        if k == 'CXXConstructorDecl':
+            cls = scope[:-2]
+            call = 'new (self) %s(%s)' % (cls, ', '.join(args))
+            body = '  %s;' % call
+            return 'extern "C" void %s(%s) {\n%s\n}\n' % (cname, ', '.join(cparams), body)
+        if k == 'CXXDestructorDecl':
+            cls = scope[:-2]
+            return 'extern "C" void %s(void* self) {\n  using T_ = %s;\n  reinterpret_cast<T_*>(self)->~T_();\n}\n' % (cname, cls)
+        if static:
+            call = '%s%s%s%s(%s)' % (scope, 'template ' if (targs and scope and '<' in scope) else '', name, targs, ', '.join(args))
+        else:
+            cls = scope[:-2]
+            if k == 'CXXConversionDecl':
+                call = 'reinterpret_cast<%s*>(self)->%s()' % (cls, name)
+            else:
+                call = 'reinterpret_cast<%s*>(self)->%s%s%s(%s)' % (cls, 'template ' if targs else '', name, targs, ', '.join(args))
+        if rt == ('builtin', 'void'):
+            return 'extern "C" void %s(%s) {\n  %s;\n}\n' % (cname, ', '.join(cparams), call)
+        if rt[0] in ('ref', 'rref'):
+            return 'extern "C" void* %s(%s) {\n  return (void*)&%s;\n}\n' % (cname, ', '.join(cparams), call)
+        if rt[0] == 'enum':
+            return 'extern "C" %s %s(%s) {\n  return static_cast<%s>(%s);\n}\n' % (self.enum_ctype(rt[1]), cname, ', '.join(cparams), self.enum_ctype(rt[1]), call)
+        if rt[0] == 'ptr':
+            return 'extern "C" void* %s(%s) {\n  return (void*)%s;\n}\n' % (cname, ', '.join(cparams), call)
+        if rt[0] == 'rec':
+            dd = self.records[rt[1]].get('definitionData', {})
+            if not (dd.get('isTriviallyCopyable') or dd.get('canPassInRegisters')):
+                raise LowerError('non-trivially-copyable return type')
+            # return through a layout-identical POD blob so that the C ABI classification matches the C struct
+            return ('extern "C" auto %s(%s) {\n  return %s;\n}\n' % (cname, ', '.join(cparams), call))
+        if rt[0] == 'builtin':
+            return 'extern "C" %s %s(%s) {\n  return %s;\n}\n' % (rt[1].replace('_Bool', 'bool'), cname, ', '.join(cparams), call)
+        raise LowerError('return type %r' % (rt,))
+
+    def shim_forwarder(self, cname, first):
+        """C++ definition of a body-less member (stub type declared in /verif/tu) forwarding to the C stub of the spec"""
+        n = self.byid[first]
+        ft = self.fn_types(n)
+        pdecls = self.func_sig_params(n)
+        scope = self.cpp_scope(n)
+        static = self.is_static_method(n)
+        ps = []
+        cps = []
+        cas = []
+        if not static:
+            cps.append('void*')
+            cas.append('(void*)this')
+        for i, (p, pt) in enumerate(zip(pdecls, ft[2])):
+            cpp = self.cpp_type_of(p['type'])
+            ps.append('%s a%d' % (cpp, i))
+            if pt[0] in ('ref', 'rref'):
+                cps.append('void*')
+                cas.append('(void*)&a%d' % i)
+            elif pt[0] == 'ptr':
+                cps.append('void*')
+                cas.append('(void*)a%d' % i)
+            else:
+                cps.append(cpp)
+                cas.append('a%d' % i)
+        rt = ft[1]
+        if rt[0] not in ('builtin', 'ptr'):
+            raise LowerError('forwarder return type %r' % (rt,))
+        rts = rt[1].replace('_Bool', 'bool') if rt[0] == 'builtin' else 'void*'
+        cv = ' const' if re.search(r'\)\s*const', n['type']['qualType']) else ''
+        rcpp, _ = split_func_type(strip_sfinae(n['type']['qualType']))
+        out = 'extern "C" %s %s(%s);\n' % (rts, cname, ', '.join(cps))
+        out += '%s %s%s(%s)%s {\n  %s(%s)%s(%s);\n}\n' % (rcpp, scope, n['name'], ', '.join(ps), cv,
+                                                            'return ' if rts != 'void' else '', rcpp if rts != 'void' else 'void', cname, ', '.join(cas))
+        return out
+
+    def emit_shim(self, opts):
+        tu = opts.get('tu_include', 'all.cpp')
+        out = ['// generated by ajlower: C-linkage entry points that call the REAL functions of /repo/src',
+               '#include "%s"' % os.path.join(os.path.dirname(os.path.dirname(os.path.abspath(__file__))), 'tu', tu),
+               '#include <new>', '']
+        skipped = []
+        todo = list(self.needed_funcs.items())
+        # (functions stubbed by the unit although /repo defines them get no wrapper: the spec's stub is the definition)
+        for first, cname in todo:
+            try:
+                out.append(self.shim_wrapper(cname, first))
+            except (LowerError, KeyError) as e:
+                skipped.append('// no wrapper for %s: %s' % (cname, e))
+        for first, cname in self.extern_funcs.items():
+            n = self.byid[first]
+            if first in self.body_of or n.get('virtual') or cname in LIBC or cname.startswith('__builtin_'):
+                continue
+            f = n.get('_file') or ''
+            if '/tu/' in f:
+                try:
+                    out.append(self.shim_forwarder(cname, first))
+                except (LowerError, KeyError) as e:
+                    skipped.append('// no forwarder for %s: %s' % (cname, e))
+        # every other body-less member of a stub type declared in /verif/tu must exist for the link: trap if reached
+        done_fw = set(self.func_first(f) for f in self.extern_funcs)
+        for nid, n in self.byid.items():
+            if n.get('kind') == 'CXXMethodDecl' and '/tu/' in (n.get('_file') or '') and nid not in self.dependent \
+                    and self.func_first(nid) == nid and nid not in self.body_of and nid not in done_fw and not n.get('isImplicit'):
+                try:
+                    ft = self.fn_types(n)
+                    ps = ', '.join(self.cpp_type_of(p['type']) for p in self.func_sig_params(n))
+                    rcpp, _ = split_func_type(strip_sfinae(n['type']['qualType']))
+                    cv = ' const' if re.search(r'\)\s*const', n['type']['qualType']) else ''
+                    out.append('%s %s%s(%s)%s { __builtin_trap(); }' % (rcpp, self.cpp_scope(n), n['name'], ps, cv))
+                except (LowerError, KeyError) as e:
+                    skipped.append('// no trap for %s: %s' % (n.get('name'), e))
+        uses_alloc = any(self.byid[f].get('virtual') for f in self.extern_funcs)
+        if uses_alloc:
+            out.append('''extern "C" void* Allocator__allocate(void*, size_t);
+extern "C" void Allocator__deallocate(void*, void*);
+extern "C" void* Allocator__reallocate(void*, void*, size_t);
+namespace { struct VerifAllocator : ArduinoJson::Allocator {
+  void* allocate(size_t n) override { return Allocator__allocate(this, n); }
+  void deallocate(void* p) override { Allocator__deallocate(this, p); }
+  void* reallocate(void* p, size_t n) override { return Allocator__reallocate(this, p, n); }
+}; }
+extern "C" void* verif_allocator(int i) { static VerifAllocator a[4]; return &a[i & 3]; }
+''')
+        out.extend(skipped)
+        return '\n'.join(out) + '\n'
 
     # ------------------------------------------------------------------ enum / constants
     def enum_const_value(self, c):
